@@ -53,6 +53,10 @@ def equivalent_layers(h, p, L, w=None):
     for i in range(L):
         ix_tmp = ix==i+1
         cn2_el[i] = p[ix_tmp].sum()
+        if cn2_el[i] == 0:
+            # no turbulence in this slab (0/0 below): zero-strength layer at mid-slab
+            h_el[i] = alt_bins[i] + hstep / 2.
+            continue
         h_el[i] = ((p[ix_tmp] * h[ix_tmp]**(5/3)).sum() / p[ix_tmp].sum())**(3/5)
         if w is not None:
             w_el[i] = ((p[ix_tmp] * w[ix_tmp]**(5/3)).sum() / p[ix_tmp].sum())**(3/5)
